@@ -1092,7 +1092,7 @@ def gen_allocations(rng, cfg):
 
 def make_config(prop, tier, rng):
     big = tier == 'thorough'
-    cfg = {'start': 1700000000.0 + rng.randint(0, 7 * 86400)}
+    cfg = {'start': 1700000000.0 + rng.randint(0, 7 * 86400), 'tier': tier}
     npods = rng.randint(1, 2)
     topology = []
     for p in range(npods):
@@ -1314,7 +1314,32 @@ class MasterSim(enginemod.Engine):
         total.steps = base.steps
         total.sim_s = base.sim_s
         digests = [base.digest]
-        picks = rng.sample(cands, min(len(cands), 2))
+        thorough = config.get('tier') == 'thorough'
+        picks = list(cands) if thorough else \
+            rng.sample(cands, min(len(cands), 2))
+        rng2 = rngmod.Streams(seed).get('crashpoint2')
+
+        def account(res, inside):
+            total.steps += res.steps
+            total.sim_s += res.sim_s
+            total.probes['crash_variants'] += 1
+            if inside:
+                total.probes['crash_mid_publication'] += 1
+                total.nontrivial += 1
+            total.faults['master_crash'] = \
+                total.faults.get('master_crash', 0) + 1
+            total.fps.extend(res.fps)
+            digests.append(res.digest)
+            if res.violation is not None:
+                res.probes = total.probes
+                res.faults = total.faults
+                res.nontrivial = total.nontrivial
+                res.steps = total.steps
+                res.sim_s = total.sim_s
+                res.fps = total.fps
+                return res
+            return None
+
         for j in sorted(picks):
             # dry run: number of storage writes of step j
             probe_ops = history[:j] + [dict(history[j], count_writes=True)]
@@ -1326,30 +1351,37 @@ class MasterSim(enginemod.Engine):
                 continue
             for k in range(1, nwrites + 1):
                 for applied in (False, True):
-                    variant = history[:j] + [
-                        dict(history[j], crash_at=k, applied=applied),
-                        {'op': 'recover'}]
+                    crashed = history[:j] + [
+                        dict(history[j], crash_at=k, applied=applied)]
+                    variant = crashed + [{'op': 'recover'}]
                     res = self._run('C10', config, seed, variant, keep_log)
+                    w1 = res.extra.pop('world')
                     res.extra = {}
-                    total.steps += res.steps
-                    total.sim_s += res.sim_s
-                    total.probes['crash_variants'] += 1
-                    if 1 < k < nwrites or (k == 1 and applied) or \
-                            (k == nwrites and not applied):
-                        total.probes['crash_mid_publication'] += 1
-                        total.nontrivial += 1
-                    total.faults['master_crash'] = \
-                        total.faults.get('master_crash', 0) + 1
-                    total.fps.extend(res.fps)
-                    digests.append(res.digest)
-                    if res.violation is not None:
-                        res.probes = total.probes
-                        res.faults = total.faults
-                        res.nontrivial = total.nontrivial
-                        res.steps = total.steps
-                        res.sim_s = total.sim_s
-                        res.fps = total.fps
-                        return res
+                    inside = (1 < k < nwrites or (k == 1 and applied) or
+                              (k == nwrites and not applied))
+                    bad = account(res, inside)
+                    if bad is not None:
+                        return bad
+                    if not thorough:
+                        continue
+                    # second crash: during the recovery's own start
+                    n2 = getattr(w1, 'last_step_writes', 0)
+                    if not n2:
+                        continue
+                    for k2 in sorted(rng2.sample(range(1, n2 + 1),
+                                                 min(n2, 3))):
+                        applied2 = rng2.random() < 0.5
+                        variant2 = crashed + [
+                            {'op': 'recover', 'crash_at': k2,
+                             'applied': applied2}, {'op': 'recover'}]
+                        res2 = self._run('C10', config, seed, variant2,
+                                         keep_log)
+                        res2.extra = {}
+                        total.probes['double_crash_variants'] = \
+                            total.probes.get('double_crash_variants', 0) + 1
+                        bad = account(res2, True)
+                        if bad is not None:
+                            return bad
         total.trace_fp = logmod.fingerprint(history)
         total.digest = logmod.canon(digests)[-64:] if False else \
             str(logmod.fingerprint(digests))
